@@ -195,6 +195,36 @@ example :
       (fun (s, _) => (s.seq.cache .eds "e1", s.seq.watched .eds, s.conc.pc 1))
     = some (none, some [], .missed) := by decide
 
+/-- **linearizability against the history** (composed system, any number of lookups, handlers not torn): the value a
+lookup returns is what the *fold of the accepted responses of the history performed so far* serves for its name at the
+step that returns it — a point between the lookup's start and its return. So a result is never a value that was never
+current, and never one that had already been replaced or removed when the returning step ran. -/
+theorem linearizable_against_history (cfg : Seq.Cfg) (T : Seq.RType) (tn : Nat → Name) (ls : List Sys.Lbl)
+    (s s' : Sys.St) (e e' : Sys.Emit) (l : Sys.Lbl) (ha : Sys.atomic ls = true)
+    (h : Sys.run cfg V T tn Sys.init ls = some (s, e))
+    (i : Nat) (v : Val) (hnd : ∀ r, s.conc.pc i ≠ .done r)
+    (hs : Sys.step cfg V T tn s l = some (s', e')) (hd : s'.conc.pc i = .done (.val v)) :
+    Spec.Seq.served cfg e.seq.reverse T (tn i) = some v := by
+  rw [← C01.served_eq_fold_concurrent cfg V T tn ls s e ha h T (tn i)]
+  exact C05.value_is_served_content cfg T tn ls s s' e e' l h i v hnd hs hd
+
+/-- ... and an error is explained too: the lookup's deadline fired, or the fold serves nothing for the name at the
+re-read (the resource was removed again after the notification) -/
+theorem error_against_history (cfg : Seq.Cfg) (T : Seq.RType) (tn : Nat → Name) (ls : List Sys.Lbl)
+    (s s' : Sys.St) (e e' : Sys.Emit) (l : Sys.Lbl) (ha : Sys.atomic ls = true)
+    (h : Sys.run cfg V T tn Sys.init ls = some (s, e))
+    (i : Nat) (hnd : ∀ r, s.conc.pc i ≠ .done r)
+    (hs : Sys.step cfg V T tn s l = some (s', e')) (hd : s'.conc.pc i = .done .err) :
+    (∃ nf, s.conc.pc i = .timedOut nf) ∨ Spec.Seq.served cfg e.seq.reverse T (tn i) = none := by
+  have hC := Sys.coupled_run cfg V T tn ls Sys.init s e (Sys.coupled_init T) h
+  rcases Sys.step_conc_one cfg V T tn s s' l e' hs with ⟨_, hsame⟩ | ⟨l', _, hl'⟩
+  · rw [hsame] at hd; exact absurd hd (hnd _)
+  · rcases error_has_witness tn s.conc s'.conc l' i hnd hl' hd with ⟨_, nf, hnf⟩ | ⟨_, hnone⟩
+    · exact Or.inl ⟨nf, hnf⟩
+    · right
+      rw [← C01.served_eq_fold_concurrent cfg V T tn ls s e ha h T (tn i), ← hC (tn i)]
+      exact hnone
+
 /-- **policy before data**: inside one locked region of `UpdateResource` the registered handlers run before the
 cache write that makes the resource visible (regenerated statement order), so by the time a lookup exposes a
 resource every handler has completed for the update that delivered it -/
